@@ -833,12 +833,15 @@ def explore(fn, assumptions=(), max_paths=200000, timeout_ms=30000, stop_at_firs
                     # harness-supplied preferences: stages of extra constraints that make the
                     # counterexample easier to realise concretely (first satisfiable stage wins)
                     if res.cex is None:
+                        preferred = False
                         for stage in (info or {}).get("prefer", []) if isinstance(info, dict) else []:
                             r2, m2 = c.check(z3.Not(term), *stage)
                             if r2 == "sat":
                                 model = m2
+                                preferred = True
                                 break
-                        model = _shrink(c, z3.Not(term), small, model)
+                        if not preferred:
+                            model = _shrink(c, z3.Not(term), small, model)
                 res.queries += c.queries
                 res.solver_s += c.solver_s
                 if r == "unsat":
